@@ -167,7 +167,7 @@ def qorbOfToks (t : List String) : Option QOrb :=
   match t with
   | name :: norad :: cospar :: dateUs :: offsetUs :: r => do
     let name ← unhex name
-    let norad ← unhex norad
+    let norad ← norad.toInt?
     let cospar ← unhex cospar
     let dateUs ← dateUs.toInt?
     let offsetUs ← offsetUs.toInt?
